@@ -234,21 +234,19 @@ func (e *originEngine) allocName(a ssa.Value) string {
 	// ordinal of this alloc among allocs of the same type in the function (position-free)
 	n := 0
 	tk := typeKey(a.Type())
+	kind := fmt.Sprintf("%T", a)
 	done := false
 	allInstrs(f, func(i ssa.Instruction) {
 		if done {
 			return
 		}
 		if v, ok := i.(ssa.Value); ok {
-			switch i.(type) {
-			case *ssa.Alloc, *ssa.MakeChan, *ssa.MakeMap, *ssa.MakeSlice:
-				if typeKey(v.Type()) == tk {
-					if v == a {
-						done = true
-						return
-					}
-					n++
+			if fmt.Sprintf("%T", i) == kind && typeKey(v.Type()) == tk {
+				if v == a {
+					done = true
+					return
 				}
+				n++
 			}
 		}
 	})
@@ -928,24 +926,35 @@ func (p *Prog) cellStores(a *ssa.Alloc) []*ssa.Store {
 	return out
 }
 
-// allocFieldStores: stores to field `name` of the struct allocated at a (via FieldAddr on the alloc,
-// on a load of a cell holding it, or on free-variable aliases), anywhere in the function nest.
-func (p *Prog) allocFieldStores(a *ssa.Alloc, name string) []*ssa.Store {
-	var out []*ssa.Store
+// allocBases: SSA values that denote (a pointer to) the object allocated at a, inside its function nest:
+// the alloc and its captures, loads of single-assignment cells holding it, and loads of a field of an
+// enclosing local literal into which it was stored (tr.Status, rpc.Header).
+func (p *Prog) allocBases(a *ssa.Alloc) map[ssa.Value]bool {
+	if p.basesMemo == nil {
+		p.basesMemo = map[*ssa.Alloc]map[ssa.Value]bool{}
+	}
+	if b, ok := p.basesMemo[a]; ok {
+		return b
+	}
 	bases := map[ssa.Value]bool{}
+	p.basesMemo[a] = bases
 	for _, al := range p.cellAliases(a) {
 		bases[al] = true
 	}
-	// pointers to the alloc stored into cells: x := &T{}; cell <- x; FieldAddr(load cell, f)
 	for _, al := range p.cellAliases(a) {
 		refs := al.Referrers()
 		if refs == nil {
 			continue
 		}
 		for _, r := range *refs {
-			if s, ok := r.(*ssa.Store); ok && s.Val == al {
-				if cell, ok := s.Addr.(*ssa.Alloc); ok && len(p.cellStores(cell)) == 1 {
-					for _, ca := range p.cellAliases(cell) {
+			s, ok := r.(*ssa.Store)
+			if !ok || s.Val != al {
+				continue
+			}
+			switch addr := s.Addr.(type) {
+			case *ssa.Alloc:
+				if len(p.cellStores(addr)) == 1 {
+					for _, ca := range p.cellAliases(addr) {
 						if crefs := ca.Referrers(); crefs != nil {
 							for _, cr := range *crefs {
 								if ld, ok := cr.(*ssa.UnOp); ok && ld.Op == token.MUL {
@@ -955,10 +964,70 @@ func (p *Prog) allocFieldStores(a *ssa.Alloc, name string) []*ssa.Store {
 						}
 					}
 				}
+			case *ssa.FieldAddr:
+				// stored into field f of an enclosing local literal P: loads of P.f denote a
+				parent := p.allocOfBase(addr.X)
+				if parent == nil || parent == a {
+					continue
+				}
+				fname := fieldName(addr)
+				if len(p.allocFieldStoresRaw(parent, fname)) != 1 {
+					continue // field reassigned: loads may denote something else
+				}
+				for pb := range p.allocBases(parent) {
+					prefs := pb.Referrers()
+					if prefs == nil {
+						continue
+					}
+					for _, pr := range *prefs {
+						fa, ok := pr.(*ssa.FieldAddr)
+						if !ok || fa.X != pb || fieldName(fa) != fname {
+							continue
+						}
+						if frefs := fa.Referrers(); frefs != nil {
+							for _, fr := range *frefs {
+								if ld, ok := fr.(*ssa.UnOp); ok && ld.Op == token.MUL && ld.X == fa {
+									bases[ld] = true
+								}
+							}
+						}
+					}
+				}
 			}
 		}
 	}
-	for b := range bases {
+	return bases
+}
+
+// allocOfBase: the local allocation a base pointer value denotes (directly, via capture, or via a single-store cell).
+func (p *Prog) allocOfBase(v ssa.Value) *ssa.Alloc {
+	switch x := v.(type) {
+	case *ssa.Alloc:
+		return x
+	case *ssa.FreeVar:
+		for _, b := range p.freeVarBindings(x) {
+			if al := p.allocOfBase(b); al != nil {
+				return al
+			}
+		}
+	case *ssa.UnOp:
+		if x.Op == token.MUL {
+			if cell := p.allocOfBase(x.X); cell != nil {
+				st := p.cellStores(cell)
+				if len(st) == 1 {
+					if al, ok := st[0].Val.(*ssa.Alloc); ok {
+						return al
+					}
+				}
+			}
+		}
+	}
+	return nil
+}
+
+func (p *Prog) allocFieldStoresRaw(a *ssa.Alloc, name string) []*ssa.Store {
+	var out []*ssa.Store
+	for b := range p.allocBases(a) {
 		refs := b.Referrers()
 		if refs == nil {
 			continue
@@ -977,6 +1046,12 @@ func (p *Prog) allocFieldStores(a *ssa.Alloc, name string) []*ssa.Store {
 			}
 		}
 	}
+	return out
+}
+
+// allocFieldStores: stores to field `name` of the struct allocated at a, anywhere in the function nest.
+func (p *Prog) allocFieldStores(a *ssa.Alloc, name string) []*ssa.Store {
+	out := p.allocFieldStoresRaw(a, name)
 	sort.Slice(out, func(i, j int) bool { return out[i].Pos() < out[j].Pos() })
 	return out
 }
